@@ -165,6 +165,55 @@ Qed.
 
 Lemma inv_lookup b k q : inv b -> lookup (b_services b) k = Some q -> good_queue q.
 Proof.
-  intros Hinv Hl. destruct (lookup_in _ _ _ Hl) as (k' & Hin).
-  unfold inv in Hinv. rewrite Forall_forall in Hinv. apply (Hinv _ Hin).
+  intros [Hinv _] Hl. destruct (lookup_in _ _ _ Hl) as (k' & Hin).
+  rewrite Forall_forall in Hinv. apply (Hinv _ Hin).
+Qed.
+
+(* ---- names of the table --------------------------------------------------------------------------------- *)
+Lemma keys_set_queue ss k q : map fst (set_queue ss k q) = map fst ss.
+Proof.
+  induction ss as [|[k' q'] r IH]; simpl; [reflexivity|]. destruct (key_eqb k k'); simpl; [reflexivity|rewrite IH; reflexivity].
+Qed.
+
+Lemma keys_del_incl ss k x : In x (map fst (del_service ss k)) -> In x (map fst ss).
+Proof.
+  induction ss as [|[k' q'] r IH]; simpl; [tauto|]. destruct (key_eqb k k'); simpl; [tauto|]. intros [H|H]; [left; exact H|right; exact (IH H)].
+Qed.
+
+Lemma keys_del_nodup ss k : NoDup (map fst ss) -> NoDup (map fst (del_service ss k)).
+Proof.
+  induction ss as [|[k' q'] r IH]; simpl; [auto|]. intros H; inversion H as [|? ? Hn Hr]; subst.
+  destruct (key_eqb k k'); [exact Hr|]. simpl. constructor; [|exact (IH Hr)]. intros Hin. apply Hn. eapply keys_del_incl; exact Hin.
+Qed.
+
+Lemma lookup_none_notin ss k : lookup ss k = None -> ~ In k (map fst ss).
+Proof.
+  induction ss as [|[k' q'] r IH]; simpl; [tauto|]. destruct (key_eqb k k') eqn:E; [discriminate|].
+  intros H [Hk|Hr]; [subst k'; rewrite key_eqb_refl in E; discriminate|exact (IH H Hr)].
+Qed.
+
+Lemma lookup_del_same ss k : NoDup (map fst ss) -> lookup (del_service ss k) k = None.
+Proof.
+  induction ss as [|[k' q'] r IH]; simpl; [reflexivity|]. intros H; inversion H as [|? ? Hn Hr]; subst.
+  destruct (key_eqb k k') eqn:E.
+  - apply key_eqb_eq in E. subst k'. destruct (lookup r k) eqn:El; [|reflexivity].
+    exfalso. destruct (lookup_in _ _ _ El) as (k2 & Hin).
+    (* the entry found has a key equal to k *)
+    clear - Hn El. induction r as [|[k3 q3] r IH]; simpl in *; [discriminate|].
+    destruct (key_eqb k k3) eqn:E3; [apply key_eqb_eq in E3; subst; apply Hn; left; reflexivity|].
+    apply IH; [intros Hx; apply Hn; right; exact Hx|exact El].
+  - simpl. rewrite E. exact (IH Hr).
+Qed.
+
+Lemma insert_at_slot ss k q : lookup ss k = Some q -> insert_at (slot_of ss k) (k, q) (del_service ss k) = ss.
+Proof.
+  induction ss as [|[k' q'] r IH]; simpl; [discriminate|]. destruct (key_eqb k k') eqn:E.
+  - intros H; inversion H; subst. apply key_eqb_eq in E. subst. reflexivity.
+  - intros H. simpl. rewrite (IH H). reflexivity.
+Qed.
+
+Lemma notin_existsb_conn c q : ~ In c (map o_conn q) -> existsb (is_conn c) q = false.
+Proof.
+  induction q as [|x r IH]; simpl; [reflexivity|]. intros H. unfold is_conn at 1.
+  destruct (o_conn x =? c) eqn:E; [apply N.eqb_eq in E; exfalso; apply H; left; exact E|]. simpl. apply IH. intros Hx; apply H; right; exact Hx.
 Qed.
